@@ -17,6 +17,7 @@ Write(rec) == Serialize(ToJson(rec) \o "\n", IOEnv.VERDICT_FILE,
 C == ToSet(T.cands)
 Cfg == [rule |-> T.cfg.rule, m |-> T.cfg.m, L |-> Rat2(T.cfg.L), hasK |-> T.cfg.hasK, k |-> Rat2(T.cfg.k), tb |-> T.cfg.tb]
 SP == SBagOf(T.prof0)
+PosBag(b) == [x \in {y \in DOMAIN b : b[y][1] > 0} |-> b[x]]
 (* a ballot without scores is logged in T.unscored (its weight does not matter) *)
 Valid == T.unscored = 0 /\ Accepts(SP, Cfg)
 Tot == ScoreTotals(SP, C)
@@ -36,7 +37,7 @@ Clause ==
        ELSE IF ~\E o \in match : o.remaining = SetSeq(e.remaining) /\ o.tbs = TbOf(e.tiebreaks) THEN "Tiebreak"
        ELSE LET W == UNION Range(SetSeq(e.elected)) IN
             IF ScoresOf(e.scores) # ScoreTotals(RemoveScored(SP, W), C \ W) THEN "Round1Totals"
-            ELSE IF SBagOf(e.bag) # RemoveScored(SP, W) THEN "Round1Profile"
+            ELSE IF SBagOf(e.bag) # PosBag(RemoveScored(SP, W)) THEN "Round1Profile"      \* a ballot of weight zero is judged like any other but leaves no trace in a bag
             ELSE ""
 (* how many different results the specification allows for this input (1 unless a random tiebreak is needed; 0 if the input is refused *)
 (* or the boundary tie is unbroken): the harness requires the real code, over all outcomes of its random draws, to produce exactly as many *)
